@@ -22,6 +22,7 @@ var (
 	flagVerbose = flag.Bool("v", false, "print every obligation")
 	flagDump    = flag.String("dump", "", "directory to keep SMT scripts of non-proved obligations")
 	flagOnly    = flag.String("only", "", "substring filter on obligation names")
+	flagModel   = flag.Bool("model", false, "func mode: print and replay the model of refuted obligations")
 )
 
 func contractFilesFor(repo string) map[string]string {
@@ -104,6 +105,27 @@ func main() {
 				continue
 			}
 			printObls(obls, true)
+			if *flagModel {
+				for _, o := range obls {
+					if o.Status == "refuted" && !o.ExpectSat {
+						rp := eng.replay(o, eng.workDir())
+						if rp != nil {
+							fmt.Println("MODEL for", o.Name)
+							var ks []string
+							for k := range rp.Inputs {
+								ks = append(ks, k)
+							}
+							sort.Strings(ks)
+							for _, k := range ks {
+								if !strings.Contains(k, "[") || strings.Contains(k, "[0]") || strings.Contains(k, "[1]") || strings.Contains(k, "[4]") {
+									fmt.Printf("   %s = %s\n", k, rp.Inputs[k])
+								}
+							}
+							fmt.Println("   predicted:", rp.Predicted, "observed:", rp.Observed, "note:", rp.Note, "confirmed:", rp.Confirmed)
+						}
+					}
+				}
+			}
 			for _, u := range fx.unsup {
 				fmt.Println("UNSUPPORTED:", u)
 			}
